@@ -4,6 +4,7 @@ import (
 	"bytes"
 	"fmt"
 	"image/color"
+	"math"
 
 	"github.com/reactivego/ivg"
 	"github.com/reactivego/ivg/decode"
@@ -96,12 +97,24 @@ type c10Result struct {
 
 // driveEncoder runs hist on e (already prepared by the caller) and checks
 // the automaton invariants after every call when probe is set.
-func driveEncoder(ctx *Ctx, e *encode.Encoder, hist []world.Op, probe bool, deepDecode bool) (res c10Result, v *report.Violation) {
+// offHi returns the per-call resolution flags (with a leading entry for
+// Reset) when the history carries off-lattice numbers, nil otherwise (then
+// the decoded history must be bit-exact).
+func offHi(off bool, sinceHi []bool) []bool {
+	if !off {
+		return nil
+	}
+	return append([]bool{false}, sinceHi...)
+}
+
+func driveEncoder(ctx *Ctx, e *encode.Encoder, hist []world.Op, probe bool, deepDecode bool, off bool) (res c10Result, v *report.Violation) {
 	m := &model.EncoderModel{}
 	tgt := world.Target{Dst: e, Enc: e}
 	var firstErr error
 	resetVB, resetPal := ivg.DefaultViewBox, ivg.DefaultPalette
 	var since []world.Op // calls since the last Reset that must arrive at the far end
+	var sinceHi []bool   // parallel: was the call made inside a path started in high-resolution mode
+	pathHi := false
 	for i := range hist {
 		o := &hist[i]
 		ctx.Beat()
@@ -116,10 +129,14 @@ func driveEncoder(ctx *Ctx, e *encode.Encoder, hist []world.Op, probe bool, deep
 			if o.Pal != nil {
 				resetPal = *o.Pal
 			}
-			since = since[:0]
+			since, sinceHi = since[:0], sinceHi[:0]
 			firstErr = nil
 		} else if c != model.ClsObserve && m.State != model.EncError {
+			if o.K == world.KStartPath {
+				pathHi = e.HighResolutionCoordinates
+			}
 			since = append(since, expectedCall(*o))
+			sinceHi = append(sinceHi, pathHi)
 		}
 		if !probe {
 			continue
@@ -145,7 +162,7 @@ func driveEncoder(ctx *Ctx, e *encode.Encoder, hist []world.Op, probe bool, deep
 			}
 		}
 		if deepDecode && m.State == model.EncStyling {
-			if v := c10Decodes(ctx, b, resetVB, resetPal, since, i); v != nil {
+			if v := c10Decodes(ctx, b, resetVB, resetPal, since, offHi(off, sinceHi), i); v != nil {
 				return res, v
 			}
 		}
@@ -156,7 +173,7 @@ func driveEncoder(ctx *Ctx, e *encode.Encoder, hist []world.Op, probe bool, deep
 		return res, viol("C10", "accept", "at the end the automaton is in %s but Bytes returned err=%v", m.State, err)
 	}
 	if m.State == model.EncStyling || m.State == model.EncInitial {
-		if v := c10Decodes(ctx, b, resetVB, resetPal, since, len(hist)-1); v != nil {
+		if v := c10Decodes(ctx, b, resetVB, resetPal, since, offHi(off, sinceHi), len(hist)-1); v != nil {
 			return res, v
 		}
 		if ctx.Stats != nil {
@@ -176,7 +193,56 @@ func driveEncoder(ctx *Ctx, e *encode.Encoder, hist []world.Op, probe bool, deep
 
 // c10Decodes: a violation-free history with all paths ended yields a stream
 // the decoder accepts and that decodes to that history.
-func c10Decodes(ctx *Ctx, b []byte, vb ivg.ViewBox, pal [64]color.RGBA, since []world.Op, at int) *report.Violation {
+// withinQuantisation compares the expected history with the decoded one for
+// histories whose numbers are off the lattice. Structure must be identical;
+// a low-resolution coordinate in [-128,128) may move by one 1/64 quantum
+// (nearest 1/64, ties and float rounding included), every other number by a
+// relative 2^-20 (the 4-byte form drops two mantissa bits), an angle
+// likewise modulo one turn. hi[i] says whether expected call i was made in
+// a path started in high-resolution mode (hi[0] belongs to Reset).
+func withinQuantisation(want, got []world.Op, hi []bool) string {
+	if len(want) != len(got) {
+		return fmt.Sprintf("%d calls made since Reset, %d decoded", len(want)-1, len(got)-1)
+	}
+	rel := func(a, b float64) bool {
+		return a == b || math.Abs(a-b) <= math.Max(math.Abs(a), math.Abs(b))/(1<<20) || (math.IsNaN(a) && math.IsNaN(b))
+	}
+	for i := range want {
+		w, g := want[i], got[i]
+		if world.SameCall(&w, &g) {
+			continue
+		}
+		w2, g2 := w, g
+		w2.F, g2.F = [6]float32{}, [6]float32{}
+		if !world.SameCall(&w2, &g2) {
+			return fmt.Sprintf("call #%d was %s, decoded as %s", i, w.String(), g.String())
+		}
+		for j := range w.F {
+			a, b := float64(w.F[j]), float64(g.F[j])
+			if float32bits(w.F[j]) == float32bits(g.F[j]) {
+				continue
+			}
+			ok := false
+			switch {
+			case w.K == world.KSetNReg || w.K == world.KSetLOD:
+				ok = rel(a, b)
+			case (w.K == world.KAbsArcTo || w.K == world.KRelArcTo) && j == 2:
+				d := math.Abs((a - math.Floor(a)) - b)
+				ok = d <= 1.0/(1<<20) || math.Abs(d-1) <= 1.0/(1<<20)
+			case !hi[i] && a >= -128 && a < 128:
+				ok = math.Abs(a-b) <= 1.0/128+1.0/2048
+			default:
+				ok = rel(a, b)
+			}
+			if !ok {
+				return fmt.Sprintf("call #%d %s: number %v (0x%08x) decoded as %v (0x%08x)", i, w.K, w.F[j], float32bits(w.F[j]), g.F[j], float32bits(g.F[j]))
+			}
+		}
+	}
+	return ""
+}
+
+func c10Decodes(ctx *Ctx, b []byte, vb ivg.ViewBox, pal [64]color.RGBA, since []world.Op, hi []bool, at int) *report.Violation {
 	rd := &world.RecDest{}
 	var err error
 	if p, _, msg := guard(func() { err = decode.Decode(rd, b) }); p {
@@ -189,7 +255,17 @@ func c10Decodes(ctx *Ctx, b []byte, vb ivg.ViewBox, pal [64]color.RGBA, since []
 	pp := pal
 	want = append(want, world.Op{K: world.KReset, VB: vb, Pal: &pp})
 	want = append(want, since...)
-	if d := world.FirstCallDiff(want, rd.Calls); d >= 0 {
+	if d := world.FirstCallDiff(want, rd.Calls); d >= 0 && hi != nil {
+		// numbers off the lattice: the same history up to the format's quantisation
+		if msg := withinQuantisation(want, rd.Calls, hi); msg == "" {
+			if ctx.Stats != nil {
+				ctx.Stats.Add("decoded_within_quantisation", 1)
+			}
+			return nil
+		} else {
+			return viol("C10", "decodes", "bytes after call #%d decode to a different history (beyond the format's quantisation): %s", at, msg)
+		}
+	} else if d >= 0 {
 		w, g := "<nothing>", "<nothing>"
 		if d < len(want) {
 			w = want[d].String()
@@ -204,16 +280,22 @@ func c10Decodes(ctx *Ctx, b []byte, vb ivg.ViewBox, pal [64]color.RGBA, since []
 
 // checkHistory evaluates every C10 invariant on one history.
 func checkHistory(ctx *Ctx, hist []world.Op, deep bool) *report.Violation {
+	return checkHistoryQ(ctx, hist, deep, false)
+}
+
+// checkHistoryQ: off says that the history carries numbers off the lattice,
+// so that "decodes to that history" is judged up to the format's quantisation.
+func checkHistoryQ(ctx *Ctx, hist []world.Op, deep bool, off bool) *report.Violation {
 	// (1) probed run on the zero value, automaton in lockstep
 	var e1 encode.Encoder
-	r1, v := driveEncoder(ctx, &e1, hist, true, deep)
+	r1, v := driveEncoder(ctx, &e1, hist, true, deep, off)
 	if v != nil {
 		return v
 	}
 	// (2) probe-free: Bytes only at the end gives the same result
 	var e2 encode.Encoder
 	q := ctx.Quiet()
-	r2, v := driveEncoder(q, &e2, hist, false, false)
+	r2, v := driveEncoder(q, &e2, hist, false, false, off)
 	if v != nil {
 		return v
 	}
@@ -224,7 +306,7 @@ func checkHistory(ctx *Ctx, hist []world.Op, deep bool) *report.Violation {
 	if len(hist) == 0 || hist[0].K != world.KReset {
 		var e3 encode.Encoder
 		e3.Reset(ivg.DefaultViewBox, ivg.DefaultPalette)
-		r3, v := driveEncoder(q, &e3, hist, true, false)
+		r3, v := driveEncoder(q, &e3, hist, true, false, off)
 		if v != nil {
 			v.Message = "on an Encoder reset with the default metadata: " + v.Message
 			return v
@@ -383,9 +465,32 @@ func c10Run(ctx *Ctx, t *tape.Tape) *report.Violation {
 		}
 		return nil
 	case c10Long:
-		h := world.GenProgram(t, world.GenCfg{MaxItems: 8, EncOnly: true, Observers: true, NoReset: t.Chance(1, 3), LongRuns: 20})
-		if v := checkHistory(ctx, h, false); v != nil {
+		off := t.Bool()
+		gc := world.GenCfg{MaxItems: 8, EncOnly: true, Observers: true, NoReset: t.Chance(1, 3), LongRuns: 20}
+		if off {
+			gc.LongRuns, gc.OffLattice = 2, true
+		}
+		h := world.GenProgram(t, gc)
+		if off {
+			// off-lattice register and LOD numbers as well
+			for i := range h {
+				switch h[i].K {
+				case world.KSetNReg:
+					if t.Bool() {
+						h[i].F[0] = world.OffReal(t)
+					}
+				case world.KSetLOD:
+					if t.Bool() {
+						h[i].F[0], h[i].F[1] = world.OffReal(t), world.OffReal(t)
+					}
+				}
+			}
+		}
+		if v := checkHistoryQ(ctx, h, false, off); v != nil {
 			return trace(v, h, "long legal history, no fault injected")
+		}
+		if st != nil && off {
+			st.Add("off_lattice_histories", 1)
 		}
 		if st != nil {
 			st.Add("evaluations", 1)
@@ -665,9 +770,11 @@ func init() {
 					"legal_histories_enumerated_over":      s.Counters["legal_histories"],
 					"seeded_histories":                     s.Counters["random_histories"],
 					"long_legal_histories":                 s.Counters["long_legal_histories"],
-					"exhaustive_histories":                 s.Counters["exhaustive_histories"],
-					"exhaustive_subspace":                  fmt.Sprintf("every history of length 1..%d over an abstract alphabet of 16 representative calls (2 Resets, CSel, Bytes, LOD, SetCSel, SetCReg ok, SetNReg incr ok, SetLOD, SetCReg bad adj, SetNReg bad incr, StartPath ok, StartPath bad adj, draw, close-move, end-path) is enumerated completely: %d histories", c10Depth(tier), c10Total(16, c10Depth(tier))),
-					"longest_history":                      s.Counters["max_history_length"],
+					"off_lattice_histories_(decode oracle up to the format's quantisation)": s.Counters["off_lattice_histories"],
+					"streams_decoded_within_quantisation":                                   s.Counters["decoded_within_quantisation"],
+					"exhaustive_histories":                                                  s.Counters["exhaustive_histories"],
+					"exhaustive_subspace":                                                   fmt.Sprintf("every history of length 1..%d over an abstract alphabet of 16 representative calls (2 Resets, CSel, Bytes, LOD, SetCSel, SetCReg ok, SetNReg incr ok, SetLOD, SetCReg bad adj, SetNReg bad incr, StartPath ok, StartPath bad adj, draw, close-move, end-path) is enumerated completely: %d histories", c10Depth(tier), c10Total(16, c10Depth(tier))),
+					"longest_history":                                                       s.Counters["max_history_length"],
 					"reach_probes": map[string]int64{
 						"fault injected strictly inside a history":           s.Counters["probe_fault_mid_history"],
 						"seeded history with both a fault and a later Reset": s.Counters["probe_fault_and_reset_in_one_history"],
